@@ -267,17 +267,23 @@ class Inliner:
         closure = False
         if isinstance(f, ast.Attribute) and isinstance(f.value, ast.Name) and is_private(f.attr):
             params = fi.params()
-            if fi.cls is not None and not fi.is_static and not fi.is_classmethod and params and f.value.id == params[0]:
+            if fi.cls is not None and not fi.is_static and params and f.value.id == params[0]:
                 callee = (self._recv_cls or fi.cls).lookup(f.attr)
-                if callee is None or callee.is_property or callee.is_classmethod:
+                if callee is None or callee.is_property:
                     return None
+                if fi.is_classmethod and not (callee.is_static or callee.is_classmethod):
+                    return None  # cls.method(obj, ..): an unbound call
                 if self._recv_cls is None:
                     for sc in self.prog.subclasses(fi.cls, include_self=False, include_dead=True):
                         if f.attr in sc.methods or f.attr in sc.class_attrs:
                             return None  # dynamic dispatch may pick the override
                 if any(f.attr in k.class_attrs for k in (self._recv_cls or fi.cls).mro() if hasattr(k, "class_attrs")):
                     return None
-                if not callee.is_static:
+                if callee.is_classmethod:
+                    # the class of the receiver is bound to the callee's first parameter
+                    recv = f.value if fi.is_classmethod else ast.copy_location(
+                        ast.Call(func=ast.Name(id="type", ctx=ast.Load()), args=[copy.deepcopy(f.value)], keywords=[]), f)
+                elif not callee.is_static:
                     recv = f.value
             else:
                 r = self.prog.resolve_name(fi.module, f.value.id)
@@ -306,7 +312,7 @@ class Inliner:
             return None
         if isinstance(callee.node, ast.AsyncFunctionDef):
             return None
-        if any(d not in ("staticmethod",) for d in callee.decorators):
+        if any(d not in ("staticmethod", "classmethod") for d in callee.decorators):
             return None
         if self.state.get(id(callee.node)) == "busy":
             return None  # recursion
